@@ -12,7 +12,7 @@ one() {
   if ! ( cd $WT && git apply --whitespace=nowarn "$HERE/seeded/$S/patch.diff" ) 2>/dev/null; then echo "$S PATCH-DOES-NOT-APPLY"; git -C /repo worktree remove --force $WT; return; fi
   R=""
   for C in $CH; do
-    OUT=$(VERIF_REPO=$WT VERIF_JOBS=5 VERIF_EVIDENCE_DIR=/tmp/rg_evidence "$HERE/check" $C --tier quick 2>&1); RC=$?
+    OUT=$(VERIF_REPO=$WT VERIF_JOBS=${REGRESS_JOBS:-5} VERIF_EVIDENCE_DIR=/tmp/rg_evidence "$HERE/check" $C --tier quick 2>&1); RC=$?
     if [ $RC -eq 1 ] && echo "$OUT" | grep -q "^VIOLATION"; then R="$R $C:VIOLATION"; else R="$R $C:SILENT(rc=$RC)"; fi
   done
   echo "$S$R"
